@@ -76,7 +76,7 @@ ASSUMPTIONS = [
 ]
 BOUNDS_DOC = {"quick": "hs1/hs2/off full products; decision sequences depth<=3 sends; race M<=1,S<=2",
               "thorough": "hs1/hs2/off full products; decision sequences depth<=5 sends; race M<=2,S<=3, trio R<=1"}
-BUDGET = {"quick": 150, "thorough": 1500}
+BUDGET = {"quick": 100, "thorough": 1150}
 
 ENGINES = ("asyncio", "trio")
 KEY = b"dGhlIHNhbXBsZSBub25jZQ=="
